@@ -161,11 +161,11 @@ Definition gb_fmt_gd (c : bytes) : bool :=
   match_classes ((fun b => beq b 71) :: (fun b => beq b 68) :: rep 3 is_digit) c.
 Definition gb_fmt_ha (c : bytes) : bool :=
   match_classes ((fun b => beq b 72) :: (fun b => beq b 65) :: rep 3 is_digit) c.
-(* for checkDigit > 0 { checkDigit -= 97 } ; the sum is at most 9*35 = 315 *)
+(* for checkDigit >= 0 { checkDigit -= 97 } ; the sum is at most 9*35 = 315 *)
 Fixpoint gb_sub97 (fuel : nat) (cd : Z) : Z :=
   match fuel with
   | O => cd
-  | S f => if 0 <? cd then gb_sub97 f (cd - 97) else cd
+  | S f => if 0 <=? cd then gb_sub97 f (cd - 97) else cd
   end.
 Definition gb_commercial (c : bytes) : bool :=
   if num_of c =? 0 then false
@@ -216,10 +216,11 @@ Definition valid_IT (c : bytes) : bool :=
               (luhn_check_digit (sub 0 10 c) =? dv (nthb 10 c))).
 
 (* ---------------- NL: 9 digits "B" 2 digits; mod 11 or mod 97 ---------------- *)
-(* mod11(num): weights 2..9 from the second-last digit leftwards; result above 9 becomes 0 *)
+(* mod11(num): weights 2..9 from the second-last digit leftwards; a remainder of 10 gives -1
+   (no check digit: the 11-test fails) *)
 Definition nl_mults : list Z := [9; 8; 7; 6; 5; 4; 3; 2].
 Definition nl_mod11 (ds : list Z) : Z :=
-  let s := (wsum nl_mults ds) mod 11 in if 9 <? s then 0 else s.
+  let s := (wsum nl_mults ds) mod 11 in if 9 <? s then -1 else s.
 (* checkMod97("NL" + code + "B" + check): letters become two-digit numbers (c - 55) *)
 Definition nl_charval (b : byte) : Z := if is_digit b then bZ b - 48 else bZ b - 55.
 Definition nl_concat (s : bytes) : Z :=
@@ -312,12 +313,10 @@ Definition normalize (cc code : bytes) : bytes * bytes :=
            if Nat.eqb (length s) 9 && fr_valid_siren s then (cc, two_digits (fr_key s) ++ s) else (cc, s)
     end
   else if is_cc cc "GB" || is_cc cc "XI" || is_cc cc "XU" then (cc, norm_generic cc [bs "XI"; bs "XU"] code)
-  else if is_cc cc "EL" || is_cc cc "GR" then (bs "EL", norm_generic cc [bs "GR"] code)
+  else if is_cc cc "EL" || is_cc cc "GR" then (bs "EL", norm_generic (bs "EL") [bs "GR"] code)
   else if is_cc cc "IN" then (bs "IN", norm_generic cc [bs "IN"] code)
   else if is_cc cc "MX" then (cc, mx_clean code)
-  else if is_cc cc "US" || is_cc cc "BR" then (cc, code)
-       (* regimes whose RegimeDef has no Normalizer: US, and BR (regimes/br/br.go defines
-          Normalize but New() does not register it) - the code is left as written *)
+  else if is_cc cc "US" then (cc, code)             (* regime without a normaliser *)
   else (cc, norm_generic cc [] code).
 
 Definition regime_valid (cc c : bytes) : bool :=
